@@ -14,7 +14,7 @@ EXES = ["m_cmd"]
 GEN = True
 THEOREMS = ["tables_ok2", "decode_construct", "decode_construct_gen", "render_preserved", "no_shared_frame",
             "std_param_rejected", "std_arity_rejected", "destination_rejected", "wrong_kind_rejected",
-            "byte_param_rejected", "slice_write_rejects"]
+            "byte_param_rejected", "slice_write_rejects", "std_accepted_is_legal"]
 TRUSTED = ["hand-written models Model/Construct.lean (argument handling) and Model/Decode.lean (frame assembly), tied "
            "on every run over all concrete classes x all destinations x parameter values (exhaustive for 4-bit and "
            "8-bit parameters, sampled for two-byte specials and instance bytes) plus a malformed-argument stream"]
